@@ -17,7 +17,7 @@ NA = {
     'C18': 'dump-then-parse fidelity is a function of the tree; the stream/file arguments are incidental and nothing is promised about partial writes',
     'C19': 'copy/pickle fidelity is a function of the tree; nothing is promised about truncated pickles or concurrent mutation',
 }
-PLANNED = ['C06', 'C07', 'C12', 'C15', 'C17']
+PLANNED = ['C06', 'C07', 'C12', 'C15']
 
 CHECKS = {
     'C20': {
@@ -25,6 +25,11 @@ CHECKS = {
         'note': 'trusts the scheduler to expose the relevant interleavings at Python line/opcode granularity of awesomeyaml frames; windows inside PyYAML or C code are not pre-empted; CPython 3.12.1 only',
         'technique': 'deterministic simulation: seeded thread-schedule search (baton-passing real threads on sys.monitoring events) with isolated-twin oracle',
         'ref': 'DESIGN.md 3.3, 4 (C20)'},
+    'C17': {
+        'text': 'seeded search over operation-and-fault histories on a two-copy store (built-in dict/list storage vs child map): a Hypothesis stateful machine (one PRNG value per simulated run, database off) generates and shrinks sequences of all listed public mutators with in-range / out-of-range / negative / non-integer indices, missing and forbidden keys, unconvertible values, iterators that raise after k items and mappings whose items() raises; after every step a plain dict/list model and the cross-view invariants (same keys, same order, same objects, every entry a node, children 0..n-1, walk==lookup, path text round trip, evaluation == model) are checked; a failed operation must leave the pre-state or, for extend/update, a prefix. Sampling, not proof.',
+        'note': 'no asynchronous exceptions are injected; slices/sort/reverse/+=/popitem are outside the statement; operations without a Python-defined result (set_child beyond the end of a list, rename_child) are checked against the invariants only',
+        'technique': 'deterministic simulation: seeded stateful operation/fault sequences (Hypothesis RuleBasedStateMachine) against a dict/list reference model, explicit replay files',
+        'ref': 'DESIGN.md 2, 4 (C17)'},
     'C09': {
         'text': 'bounded liveness decided on the simulator step clock (traced line events, deterministic budget) plus a reference-graph model: seeded search over reference graphs (chains to 60, fan-in, forward/backward, containers, call arguments, dangling/self/cyclic) and over the routes by which the stages reach the builder (texts, files, multi-document, includes on the simulated file system). Sampling, not proof.',
         'note': 'the step budget (5M traced lines) stands for "hangs"; reference targets that traverse another reference are not generated',
